@@ -524,6 +524,10 @@ class HistoryRunner:
         style = int(self.rng.integers(0, 4)) if cur is not None else 0
         if style == 0 or not isinstance(cur, WeightedTensor) or cur.weight is None:
             v = lattice[torch.tensor(self.rng.integers(0, len(lattice), size=shape))]
+            if self.rng.random() < 0.2:
+                # a weighted value that carries no weights at all (how the library itself hands the requested ages to a state for predictions)
+                self.c("weighted_assignments_without_weights")
+                return WeightedTensor(v)
             w = torch.tensor(self.rng.integers(0, 3, size=shape)) if self.rng.random() < 0.5 else torch.tensor(self.rng.random(shape) < 0.7)
             return WeightedTensor(v, w)
         if style == 1:  # same numbers, entries worth exactly 0 become masked (the weighted content is unchanged, the weights are not)
